@@ -97,7 +97,7 @@ def divmodR (a b : Int) : R (Int × Int) :=
 def gcd (a b : Int) : Int := ((Int.gcd a b : Nat) : Int)
 
 /-- `s.add(x)` on a set kept as the list of its members in insertion order -/
-def setAdd (s : List Int) (x : Int) : List Int := if s.contains x then s else s ++ [x]
+def setAdd {α} [BEq α] (s : List α) (x : α) : List α := if s.contains x then s else s ++ [x]
 
 /-- `datetime.date(y, m, d)`: the validated triple (`ValueError` outside the calendar) -/
 def mkDate (y m d : Int) : R (Int × Int × Int) :=
@@ -114,6 +114,10 @@ def easterDate (year : Int) : R (Int × Int × Int) :=
   match Gen.easter year 3 with
   | .error e => .error e
   | .ok e => mkDate e.1 e.2.1 e.2.2
+
+/-- the value of an optional that is known not to be `None` at this point of the code (the translator emits it only inside
+    the else-branch of `x is None`, the body of `x is not None`, or after `x` was assigned a value) -/
+def the {α} [Inhabited α] (o : Option α) : α := o.getD default
 
 /-- `[v] * n` -/
 def repeatL {α} (v : α) (n : Int) : List α := List.replicate n.toNat v
